@@ -751,3 +751,224 @@ fn one_layout_case(ctx: &Ctx, rng: &mut StdRng, lsec: &str, shape: &Value, tr: &
         }
     }
 }
+
+
+// ---- implementation -> spec: random exchanges recorded for Trace_ValveA2S.tla -----------------------------
+
+/// Random configurations and random server reactions (more retries / rounds than the exhaustive configs, junk).
+pub fn trace_random(ctx: &Ctx, seed: u64, runs: usize, out: &mut Vec<Value>, rep: &mut Report) {
+    use gamedig::verif_hook as hook;
+    let mut rng = StdRng::seed_from_u64(seed);
+    let toggles = ["Skip", "Try", "Enforce"];
+    for _ in 0 .. runs {
+        let r = [0u64, 0, 1, 1, 2, 3, 5][rng.gen_range(0 .. 7)];
+        let expect = ["none", "main", "main+ded"][rng.gen_range(0 .. 3)];
+        let srv = ["main", "ded", "other"][rng.gen_range(0 .. 3)];
+        let cfg = json!({"r": r, "gp": toggles[rng.gen_range(0 .. 3)], "gr": toggles[rng.gen_range(0 .. 3)],
+                         "check": rng.gen_bool(0.5), "expect": expect, "srv": srv});
+        let far = rng.gen_bool(0.5);
+        let (a, d, x) = pick_ids(&mut rng, far);
+        let engine = match expect {
+            "none" => if rng.gen_bool(0.5) { json!({"t":"source_none"}) } else { json!({"t":"goldsrc","force":false}) },
+            "main" => json!({"t":"source","main":a,"ded":null}),
+            _ => json!({"t":"source","main":a,"ded":d}),
+        };
+        let appid = match srv { "main" => a, "ded" => d, _ => x };
+        // a reaction per potential send; the client decides how many it uses
+        let mut reactions: Vec<&str> = Vec::new();
+        let mut rounds = 0;
+        for _ in 0 .. 60 {
+            let k = match rng.gen_range(0 .. 100) {
+                0 ..= 44 => "good",
+                45 ..= 62 => "silent",
+                63 ..= 69 => "bad",
+                70 ..= 84 => "chal",
+                85 ..= 90 => "frags",
+                91 ..= 95 => "fragsshort",
+                _ => "junk",
+            };
+            // a server that answers every request with a new challenge for ever is a different story (bounded here)
+            let k = if k == "chal" && rounds >= 4 { "good" } else { k };
+            rounds = if k == "chal" { rounds + 1 } else { 0 };
+            reactions.push(k);
+        }
+        // the section each send will be for is only known while the client runs: build replies for all three sections per slot
+        // lazily is not possible with a static script, so the script is built by simulating the specification's control flow
+        let sim = simulate(&cfg, &reactions);
+        let mut on_send = Vec::new();
+        let mut chal_bytes: Vec<Option<[u8; 4]>> = Vec::new();
+        for (i, sec) in sim.iter().enumerate() {
+            let (payload, _, _) = build_section(&mut rng, ctx, sec, &engine, appid, None, None);
+            let mut cb = None;
+            on_send.push(match reactions[i] {
+                "good" => vec![payload],
+                "bad" => vec![malformed(&mut rng, sec, &payload).0],
+                "silent" => vec![],
+                "chal" => {
+                    let c = strat_challenge(&mut rng, None);
+                    cb = Some(c);
+                    vec![challenge_packet(c)]
+                }
+                "frags" => split(&mut rng, ctx, &payload, 2, goldsrc_split(&engine), true, false),
+                "fragsshort" => vec![split(&mut rng, ctx, &payload, 2, goldsrc_split(&engine), true, false).remove(0)],
+                _ => {
+                    // junk: a plausible header and kind, random body
+                    let mut j = payload[.. 5].to_vec();
+                    j.extend((0 .. rng.gen_range(0 ..= 40)).map(|_| rng.gen::<u8>()));
+                    vec![j]
+                }
+            });
+            chal_bytes.push(cb);
+        }
+        let script = ScriptJ::udp(on_send);
+        let eng = engine_of(&engine);
+        let gather = GatheringSettings {
+            players: toggle(cfg["gp"].as_str().unwrap()),
+            rules: toggle(cfg["gr"].as_str().unwrap()),
+            check_app_id: cfg["check"].as_bool().unwrap(),
+        };
+        let rec = run_call(&script, DEFAULT_MAX_OPS, move || valve::query(&addr(27015), eng, Some(gather), timeouts(r as usize)));
+        rep.evaluations += 1;
+        rep.distinct.insert(hash_of(&(cfg.to_string(), reactions.iter().take(12).collect::<Vec<_>>())));
+        let start = out.len();
+        out.push(json!({"ev":"Call","cfg":cfg}));
+        // project the recorded socket events onto the specification's alphabet
+        let mut send_no = 0usize;
+        let mut pending: Vec<bool> = Vec::new(); // recv outcomes since the last send: true = data
+        let mut last_react = "";
+        let flush = |pending: &mut Vec<bool>, react: &str, out: &mut Vec<Value>| {
+            let pat: Vec<bool> = pending.drain(..).collect();
+            if pat.is_empty() {
+                return;
+            }
+            let ev = match (react, pat.as_slice()) {
+                ("good", [true]) => json!({"ev":"Recv","out":"single","good":"yes"}),
+                ("bad", [true]) => json!({"ev":"Recv","out":"single","good":"no"}),
+                ("junk", [true]) => json!({"ev":"Recv","out":"single","good":"unknown"}),
+                ("chal", [true]) => json!({"ev":"Recv","out":"chal","good":"yes"}),
+                ("silent", [false]) => json!({"ev":"Recv","out":"timeout","good":"yes"}),
+                ("frags", [true, true]) => json!({"ev":"Recv","out":"frags","good":"yes"}),
+                ("fragsshort", [true, false]) => json!({"ev":"Recv","out":"fragsshort","good":"yes"}),
+                // anything else (a fragment left unread, a read after the reply was complete, ...) is no step of the model
+                (_, p) => json!({"ev":"RecvUnexplained","react":react,"pattern":p}),
+            };
+            out.push(ev);
+        };
+        for e in &rec.events {
+            match e {
+                hook::Event::Send { data, .. } => {
+                    flush(&mut pending, last_react, out);
+                    let req = match data.get(4) { Some(0x54) => "info", Some(0x55) => "players", Some(0x56) => "rules", _ => "unknown" };
+                    // which challenge does it carry? the index of the challenge round of this attempt, 99 if it is none of them
+                    let carried: Option<&[u8]> = match req {
+                        "info" => if data.len() > 25 { Some(&data[25 ..]) } else { None },
+                        _ => if data.len() >= 9 && data[5 .. 9] != [0xff, 0xff, 0xff, 0xff] { Some(&data[5 .. 9]) } else { None },
+                    };
+                    // a challenge whose bytes are ff ff ff ff is echoed as such (indistinguishable from "none" on the wire)
+                    let carried = match (carried, req) {
+                        (None, "players" | "rules") if send_no > 0 && chal_bytes[send_no - 1] == Some([0xff; 4]) => Some(&data[5 .. 9]),
+                        (c, _) => c,
+                    };
+                    let chal = match carried {
+                        None => 0,
+                        Some(c) => {
+                            // rounds of this attempt = consecutive "chal" reactions immediately before this send
+                            let mut idx = 0u64;
+                            let mut k = send_no;
+                            let mut rounds = 0u64;
+                            while k > 0 && reactions[k - 1] == "chal" {
+                                rounds += 1;
+                                k -= 1;
+                            }
+                            if rounds > 0 && chal_bytes[send_no - 1].map_or(false, |b| b[..] == *c) {
+                                idx = rounds;
+                            }
+                            if idx == 0 { 99 } else { idx }
+                        }
+                    };
+                    last_react = reactions.get(send_no).copied().unwrap_or("silent");
+                    out.push(json!({"ev":"Send","req":req,"chal":chal,"react":last_react}));
+                    send_no += 1;
+                }
+                hook::Event::Recv { out: o, .. } => pending.push(matches!(o, hook::RecvOut::Data(_))),
+                hook::Event::Open { .. } => {}
+            }
+        }
+        flush(&mut pending, last_react, out);
+        match &rec.outcome {
+            Outcome::Ok(v) => out.push(json!({"ev":"Return","state":"ok","class":"","players":!v["players"].is_null(),"rules":!v["rules"].is_null()})),
+            Outcome::Err(k) => {
+                let class = match k.as_str() { "PacketReceive" | "PacketSend" => "timeout", "BadGame" => "badgame", _ => "malformed" };
+                out.push(json!({"ev":"Return","state":"err","class":class,"players":false,"rules":false}));
+            }
+            Outcome::Panic { msg } => {
+                rep.violation("C01", &format!("valve::query panic: {}", first_line(msg)), json!({"kind":"valve-trace","cfg":cfg,"script":script,"engine":engine}));
+                out.truncate(start);
+            }
+            Outcome::Hang => {
+                rep.violation("C01", "valve::query does not return", json!({"kind":"valve-trace","cfg":cfg,"script":script,"engine":engine}));
+                out.truncate(start);
+            }
+        }
+    }
+}
+
+/// Which section each successive send is for, following the control flow of ValveA2S.tla for the given reactions
+/// (so that the scripted reply to the i-th send is a reply to the request the client will actually make).
+fn simulate(cfg: &Value, reactions: &[&str]) -> Vec<&'static str> {
+    let r = cfg["r"].as_u64().unwrap();
+    let foreign = match (cfg["expect"].as_str().unwrap(), cfg["srv"].as_str().unwrap()) {
+        ("main", s) => s != "main",
+        ("main+ded", s) => s == "other",
+        _ => false,
+    };
+    let mut secs = Vec::new();
+    let mut i = 0usize;
+    let order = ["info", "players", "rules"];
+    'sections: for sec in order {
+        let tog = match sec { "info" => "Enforce", "players" => cfg["gp"].as_str().unwrap(), _ => cfg["gr"].as_str().unwrap() };
+        if sec == "players" && cfg["check"] == true && foreign {
+            break;
+        }
+        if tog == "Skip" {
+            continue;
+        }
+        let mut attempt = 1;
+        loop {
+            // one attempt: initial send, then challenge rounds
+            loop {
+                if i >= reactions.len() {
+                    break 'sections;
+                }
+                secs.push(sec);
+                let k = reactions[i];
+                i += 1;
+                match k {
+                    "chal" => continue,
+                    "good" | "frags" => continue 'sections,
+                    "junk" => {
+                        // validity unknown: both continuations request sections from here on; the reply bytes only matter for
+                        // parsing, so keep following the "it was malformed" flow for Enforce, the next section otherwise
+                        if tog == "Enforce" { break 'sections } else { continue 'sections }
+                    }
+                    "bad" => {
+                        if tog == "Enforce" { break 'sections } else { continue 'sections }
+                    }
+                    _ => break, // silent / fragsshort: timeout
+                }
+            }
+            if attempt <= r {
+                attempt += 1;
+            } else if tog == "Enforce" {
+                break 'sections;
+            } else {
+                continue 'sections;
+            }
+        }
+    }
+    // pad: if the client sends more than the model expects, those requests get info-shaped replies
+    while secs.len() < reactions.len() {
+        secs.push("info");
+    }
+    secs
+}
